@@ -2,9 +2,9 @@ From LOV Require Import Cache.Events.
 
 Lemma apply_row_replay c ch c' es : apply_row c ch = Some (c', es) -> replay c es = Some c'.
 Proof.
-  destruct ch as [[t u] target]. unfold apply_row.
+  destruct ch as [[[t u] ins] target]. unfold apply_row.
   destruct (tc_get c t !! u) as [o|] eqn:E, target as [n|]; try discriminate.
-  - destruct (bool_decide (o = n)) eqn:D; intros [= <- <-]; [reflexivity|].
+  - destruct ins; [discriminate|]. destruct (bool_decide (o = n)) eqn:D; intros [= <- <-]; [reflexivity|].
     cbn. rewrite E. rewrite bool_decide_eq_true_2 by reflexivity. reflexivity.
   - intros [= <- <-]. cbn. rewrite E. rewrite bool_decide_eq_true_2 by reflexivity. reflexivity.
   - intros [= <- <-]. cbn. rewrite E. reflexivity.
@@ -46,12 +46,12 @@ Theorem events_are_changes c ch c' es e :
   | EvDel t u o => tc_get c t !! u = Some o /\ tc_get c' t !! u = None
   end.
 Proof.
-  destruct ch as [[t u] target]. unfold apply_row.
+  destruct ch as [[[t u] ins] target]. unfold apply_row.
   assert (Hset : forall r, tc_get (tc_set c t u r) t !! u = r).
   { intros r. unfold tc_get, tc_set. rewrite lookup_insert. cbn.
     destruct r; [apply lookup_insert|apply lookup_delete]. }
   destruct (tc_get c t !! u) as [o|] eqn:E, target as [n|]; try discriminate.
-  - destruct (bool_decide (o = n)) eqn:D; intros [= <- <-] Hin.
+  - destruct ins; [discriminate|]. destruct (bool_decide (o = n)) eqn:D; intros [= <- <-] Hin.
     + inversion Hin.
     + apply elem_of_list_singleton in Hin as ->. apply bool_decide_eq_false in D.
       split; [exact E|]. split; [apply Hset|exact D].
@@ -61,7 +61,7 @@ Qed.
 
 (** a row that is not changed produces no event *)
 Theorem no_event_without_change c t u r :
-  tc_get c t !! u = Some r -> apply_row c (t, u, Some r) = Some (c, []).
+  tc_get c t !! u = Some r -> apply_row c (t, u, false, Some r) = Some (c, []).
 Proof. intros E. unfold apply_row. rewrite E. rewrite bool_decide_eq_true_2 by reflexivity. reflexivity. Qed.
 
 (** The buffer is FIFO: while nothing is dropped, what was delivered followed by what is still buffered is exactly
